@@ -88,7 +88,7 @@ func genC13(tier string, seed int64) []Case {
 		variants = append(variants, k)
 	}
 	sort.Strings(variants)
-	lifecycle := []string{"register", "next", "initerr", "exiterr", "id-missing", "id-invalid", "id-unknown", "noerrtype"}
+	lifecycle := []string{"register", "next", "initerr", "exiterr", "id-missing", "id-invalid", "id-unknown", "noerrtype", "noerrtype-exit"}
 	// single extension: every register variant followed by every pair of lifecycle calls
 	for _, kind := range []string{"ext", "int"} {
 		for _, v := range variants {
@@ -128,7 +128,7 @@ func genC13(tier string, seed int64) []Case {
 	if tier == "thorough" {
 		n = 30000
 	}
-	allOps := []string{"register", "register", "next", "next", "initerr", "exiterr", "id-missing", "id-invalid", "id-unknown", "id-other", "noerrtype"}
+	allOps := []string{"register", "register", "next", "next", "initerr", "exiterr", "id-missing", "id-invalid", "id-unknown", "id-other", "noerrtype", "noerrtype-exit"}
 	for i := 0; i < n; i++ {
 		ne := 1 + r.Intn(3)
 		d := c13Desc{}
@@ -396,6 +396,10 @@ func runC13(c *Ctx, d c13Desc) {
 				wantSt, wantEt = 403, "Extension.MissingHeader"
 			}
 			got = conn.ExtInitError(idOf(), "")
+		case "noerrtype-exit":
+			// an exit error report without the mandatory error type: refused whatever the state - and no state change
+			wantSt, wantEt = 403, "Extension.MissingHeader"
+			got = conn.ExtExitError(idOf(), "")
 		case "id-missing":
 			wantSt, wantEt = 403, "Extension.MissingExtensionIdentifier"
 			got = conn.ExtNextID("")
